@@ -450,7 +450,7 @@ inline bool run_more_family(std::string const& family, Rng& sr, uint64_t i, bool
   else if (family == "faults") ok = faults_S(sr, i);
   else if (family == "drop") ok = g_mode_s ? drop_S(sr, i) : drop_F(sr, i);
   else if (family == "progress") ok = g_mode_s ? progress_S(sr, i) : progress_F(sr, i);
-  else if (family == "levels") ok = levels_S(sr, i);
+  else if (family == "levels") ok = g_mode_s ? levels_S(sr, i) : levels_F(sr, i);
   else if (family == "lines") ok = lines_S(sr, i);
   else if (family == "lifecycle") ok = g_mode_s ? lifecycle_S(sr, i) : lifecycle_F(sr, i);
   else return false;
